@@ -223,7 +223,7 @@ def instantiations(d, tier):
                 # (a range that is written field by field plus a trailing flag, and one-byte values:
                 # what follows them in the stream is read at the right place only if their
                 # ε-copy readers consume exactly what was written)
-                args = ["Vec<u32>", "String", "core::ops::RangeInclusive<u32>"] if tier == "quick" else ["Vec<u32>", "String", "Vec<String>", "P1", "Option<Vec<u64>>", "u64", "core::ops::RangeInclusive<u32>", "bool", "Option<bool>"]
+                args = ["Vec<u32>", "String", "core::ops::RangeInclusive<u32>", "bool"] if tier == "quick" else ["Vec<u32>", "String", "Vec<String>", "P1", "Option<Vec<u64>>", "u64", "core::ops::RangeInclusive<u32>", "bool", "Option<bool>"]
                 choices.append([(a, EPS[a] if p.name in fps else a) for a in args])
     out = []
     prod = list(itertools.product(*choices)) if choices else [()]
